@@ -399,10 +399,17 @@ func (gb *gcpBalancer) getReadySubConnRef(boundKey string) (*subConnRef, bool) {
 }
 
 func (gb *gcpBalancer) getSubConnRoundRobin(ctx context.Context) *subConnRef {
-	if len(gb.scRefList) == 0 {
+	// scRefList is appended to under gb.mu when the pool grows.
+	gb.mu.RLock()
+	scRefList := gb.scRefList
+	gb.mu.RUnlock()
+	if len(scRefList) == 0 {
 		gb.newSubConn()
+		gb.mu.RLock()
+		scRefList = gb.scRefList
+		gb.mu.RUnlock()
 	}
-	scRef := gb.scRefList[atomic.AddUint32(&gb.rrRefId, 1)%uint32(len(gb.scRefList))]
+	scRef := scRefList[atomic.AddUint32(&gb.rrRefId, 1)%uint32(len(scRefList))]
 
 	gb.mu.RLock()
 	if state := gb.scStates[scRef.subConn]; state == connectivity.Ready {
